@@ -1395,11 +1395,12 @@ def rs_zeta(ctx, s, derivative=0, **kwargs):
     prec = ctx.prec
     try:
         if critical_line:
-            return zeta_half(ctx, s, derivative)
+            v = zeta_half(ctx, s, derivative)
         else:
-            return zeta_offline(ctx, s, derivative)
+            v = zeta_offline(ctx, s, derivative)
     finally:
         ctx.prec = prec
+    return +v
 
 @defun
 def rs_z(ctx, w, derivative=0):
@@ -1411,8 +1412,9 @@ def rs_z(ctx, w, derivative=0):
     prec = ctx.prec
     try:
         if critical_line :
-            return z_half(ctx, w, derivative)
+            v = z_half(ctx, w, derivative)
         else:
-            return z_offline(ctx, w, derivative)
+            v = z_offline(ctx, w, derivative)
     finally:
         ctx.prec = prec
+    return +v
